@@ -70,9 +70,9 @@ CHECKS["C09"] = ("Coq theorems for every hierarchy / layer / fuel: unique names,
     "and decode of an inherited service.",
     TB + "PARTIAL: which of two same-named parent objects wins and exactly when a conflict is reported is carried by correspondence + oracle (theorems give soundness/completeness of the name set, not the priority tie-break). Categories not generated: tables, state charts, unit groups, jobs.",
     "Rocq/Coq proof (dictionary invariant by induction over parent refs) + correspondence + declarative oracle", "DESIGN.md §3 C09")
-CHECKS["C15"] = ("Coq theorems: protocol-specific definition before generic (any instance list), value defaults; refutation of the pre-fix first-hit lookup. Model of the (spec, protocol)-keyed override through the hierarchy, get_comparam, get_value, get_subvalue tied to loaded hierarchies by correspondence; "
+CHECKS["C15"] = ("Coq theorems: protocol-specific definition before generic (any instance list), value defaults; refutation of the pre-fix first-hit lookup; for every hierarchy and layer: keys (specification, protocol) are unique, a local definition wins, otherwise the parent folded in last (ascending priority order) which knows the key wins and ignorant parents change nothing. Model of the (spec, protocol)-keyed override through the hierarchy, get_comparam, get_value, get_subvalue tied to loaded hierarchies by correspondence; "
     "oracle: declarative override, specific-first lookup, default fallback, typed accessors equal the numeric content.",
-    TB + "PARTIAL: the override-through-hierarchy statement is correspondence + oracle only. DoIP accessors compared through the generic value path.",
+    TB + "PARTIAL: that sort_asc orders the parents by priority is not a theorem (correspondence + declarative oracle cover it). DoIP accessors compared through the generic value path.",
     "Rocq/Coq proof (lookup precedence) + correspondence + declarative oracle", "DESIGN.md §3 C15")
 CHECKS["C14"] = ("Coq theorems for all candidate lists, all deterministic ECUs and all match oracles: the loop reports the first candidate with a pattern all of whose parameters match; outcome independent of caching; only identification requests of the candidates are issued; "
     "with caching no request is issued twice (cache-consistency and NoDup invariants by induction over parameters/patterns/variants). Model tied to VariantMatcher by correspondence on generated ECU-/base-variant databases x all response functions x cache on/off.",
